@@ -1,13 +1,16 @@
 (* C17 — executable model of workspace/src/workspace.rs (Workspace: add, remove, replace, clear,
    deploy, evaluate_invocable).  ImplModel = the four separately updated fields of the Rust
-   struct; Spec = an abstract workspace (a list of models plus the set of deployed names).
-   No proofs in this file. *)
+   struct; the list-shaped abstract workspace below (a list of models plus the deployed evaluators)
+   is the first Spec layer; the predicate-shaped Spec that shares no function with the ImplModel is
+   in C17/Abstract.v.  No proofs in this file. *)
 From Coq Require Import List NArith Bool.
 Import ListNotations.
 Open Scope N_scope.
 
-(* A DMN document as the workspace sees it: namespace, name, and whether ModelEvaluator::new succeeds. *)
-Record mdl := { ns : N; nm : N; builds : bool }.
+(* A DMN document as the workspace sees it: namespace, name, whether ModelEvaluator::new succeeds, and WHICH document
+   it is (doc: two documents with the same namespace and name are told apart by it; an evaluation served by the
+   evaluator built from the document answers with it). *)
+Record mdl := { ns : N; nm : N; builds : bool; doc : N }.
 
 Definition mem (x : N) (l : list N) : bool := existsb (N.eqb x) l.
 Definition del (x : N) (l : list N) : list N := filter (fun y => negb (N.eqb x y)) l.
@@ -15,13 +18,21 @@ Definition del (x : N) (l : list N) : list N := filter (fun y => negb (N.eqb x y
 Inductive op :=
 | Add (m : mdl) | Remove (n k : N) | Replace (m : mdl) | Clear | Deploy | Eval (k : N).
 
-(* observable result of an operation *)
-Inductive out := OAdd (ok : bool) | OUnit | OEval (deployed : bool).
+(* model_evaluators_by_name as an association list name -> document the evaluator was built from *)
+Fixpoint lookup (k : N) (l : list (N * N)) : option N :=
+  match l with
+  | [] => None
+  | (k', d) :: r => if N.eqb k k' then Some d else lookup k r
+  end.
+Definition deld (x : N) (l : list (N * N)) : list (N * N) := filter (fun p => negb (N.eqb x (fst p))) l.
+
+(* observable result of an operation; an evaluation answers None (not deployed) or the document whose evaluator served it *)
+Inductive out := OAdd (ok : bool) | OUnit | OEval (served : option N).
 
 (* ---------------- ImplModel ---------------- *)
 (* definitions : Vec, definitions_by_namespace / definitions_by_name : HashMap key sets,
-   model_evaluators_by_name : HashMap key set *)
-Record ws := { defs : list mdl; by_ns : list N; by_nm : list N; evs : list N }.
+   model_evaluators_by_name : HashMap name -> evaluator (the document it was built from) *)
+Record ws := { defs : list mdl; by_ns : list N; by_nm : list N; evs : list (N * N) }.
 
 Definition init : ws := {| defs := []; by_ns := []; by_nm := []; evs := [] |}.
 
@@ -46,7 +57,7 @@ Definition remove (s : ws) (n k : N) : ws :=
 
 Definition deploy (s : ws) : ws :=
   {| defs := defs s; by_ns := by_ns s; by_nm := by_nm s;
-     evs := fold_left (fun l d => if builds d then nm d :: del (nm d) l else l) (defs s) [] |}.
+     evs := fold_left (fun l d => if builds d then (nm d, doc d) :: deld (nm d) l else l) (defs s) [] |}.
 
 Section Step.
 Variable rm : ws -> N -> N -> ws.
@@ -57,7 +68,7 @@ Definition step (s : ws) (o : op) : ws * out :=
   | Replace m => let (s', ok) := add (rm s (ns m) (nm m)) m in (s', OAdd ok)
   | Clear => (init, OUnit)
   | Deploy => (deploy s, OUnit)
-  | Eval k => (s, OEval (mem k (evs s)))
+  | Eval k => (s, OEval (lookup k (evs s)))
   end.
 
 Fixpoint run (s : ws) (ops : list op) : ws * list out :=
@@ -67,8 +78,8 @@ Fixpoint run (s : ws) (ops : list op) : ws * list out :=
   end.
 End Step.
 
-(* ---------------- Spec: the abstract workspace ---------------- *)
-Record aws := { adefs : list mdl; aevs : list N }.
+(* ---------------- Spec, list-shaped: the abstract workspace ---------------- *)
+Record aws := { adefs : list mdl; aevs : list (N * N) }.
 Definition ainit : aws := {| adefs := []; aevs := [] |}.
 
 Definition clash (m d : mdl) : bool := N.eqb (ns d) (ns m) || N.eqb (nm d) (nm m).
@@ -85,8 +96,8 @@ Definition astep (a : aws) (o : op) : aws * out :=
   | Remove n k => (a_remove a n k, OUnit)
   | Replace m => let (a', ok) := a_add (a_remove a (ns m) (nm m)) m in (a', OAdd ok)
   | Clear => (ainit, OUnit)
-  | Deploy => ({| adefs := adefs a; aevs := map nm (filter builds (adefs a)) |}, OUnit)
-  | Eval k => (a, OEval (mem k (aevs a)))
+  | Deploy => ({| adefs := adefs a; aevs := map (fun d => (nm d, doc d)) (filter builds (adefs a)) |}, OUnit)
+  | Eval k => (a, OEval (lookup k (aevs a)))
   end.
 
 Fixpoint arun (a : aws) (ops : list op) : aws * list out :=
@@ -99,3 +110,23 @@ Fixpoint arun (a : aws) (ops : list op) : aws * list out :=
 Definition trace (rm : ws -> N -> N -> ws) (ops : list op) : list (out * ws) :=
   (fix go (s : ws) (ops : list op) :=
      match ops with [] => [] | o :: r => let (s1, x) := step rm s o in (x, s1) :: go s1 r end) init ops.
+
+(* ---------------- what the exhaustive part of the correspondence check prints ---------------- *)
+(* the observation the hook verif_snapshot gives of a state: the stored (namespace, name) pairs in order, the key sets of the
+   two indexes and of the evaluator map as sorted lists without repetition *)
+Fixpoint ins (x : N) (l : list N) : list N :=
+  match l with
+  | [] => [x]
+  | y :: r => if x <? y then x :: l else if x =? y then l else y :: ins x r
+  end.
+Definition sortN (l : list N) : list N := fold_right ins [] l.
+Definition observe (s : ws) : list (N * N) * list N * list N * list N :=
+  (map (fun d => (ns d, nm d)) (defs s), sortN (by_ns s), sortN (by_nm s), sortN (map fst (evs s))).
+
+(* every history of length 1..n over the alphabet that extends the state s, in pre-order, each with the result of its last
+   operation and the observation of the state it leads to (states are shared along the tree, nothing is run twice) *)
+Fixpoint explore (alphabet : list op) (n : nat) (s : ws) : list (out * (list (N * N) * list N * list N * list N)) :=
+  match n with
+  | O => []
+  | S n' => flat_map (fun o => let (s1, x) := step remove s o in (x, observe s1) :: explore alphabet n' s1) alphabet
+  end.
